@@ -15,7 +15,7 @@ CHECKS = {
         "every observed step.  A history property of a small protocol: exactly what a model checker decides.",
         note="Bounded instance (nesting, number of generated keys); file contents abstracted to size class / key identity; "
         "reference counts are inferred by the spec; unwritable directory realised as missing directory (checks run as root); "
-        "independent AES in harness/props/aesref.py identifies which key encrypted.",
+        "independent AES in harness/props/aesref.py identifies which key encrypted.  Exit also by an exception propagating out of the context (Exit(o, exc)).",
         technique="TLA+ spec + TLC exhaustive invariants/action properties; graph replay into code; TLC trace validation of recorded runs",
         design="5/C07",
     ),
@@ -27,7 +27,7 @@ CHECKS = {
         "compared stage by stage; seeded random descriptors/values outside the families are run on the real fields and TLC "
         "re-evaluates the specification's operators and the predicates on the logged results (Trace_FieldLab).",
         note="Validate/ToBasic/ToPython are transcriptions of fields/*.py over an abstract value universe (half-integer floats, "
-        "ASCII model alphabet, regex catalogue, decimal prefix lengths, abstract file system); DNS resolution excluded.",
+        "ASCII model alphabet, regex catalogue, decimal prefix lengths, abstract file system); DNS resolution excluded.  Later rounds added: the field subclasses with defaults of their own (PortField, LogLevelField, ApplicationModeField built without arguments), relative start directories, byte strings around one base64 line, characters whose case mapping changes the length of a string (written by name).",
         technique="TLA+ operators for every field class + TLC exhaustive invariants over descriptor/value grids; case replay into code; TLC re-evaluation of recorded cases",
         design="5/C05",
     ),
@@ -59,7 +59,7 @@ CHECKS = {
         "C12_Marks (the mark leaves exactly on an accepted assignment, never on a rejected one) and C12_Reset (value and mark "
         "restored, frame) on ConfigMachine over all interleavings of set / failed set / load / reset / constructor to the depth bound; "
         "conformance as for C01 with is_value_defined projected for every key at every depth.",
-        note="Bounded instance MC_Config/SchemaA (scalars with bounds/transforms, typed list and dict, nested schemas with a validator, lists of schemas with and without defaults), candidate pools, depth 3 (quick) / 4 (thorough); object identity observed as the set of replaced paths; values outside the model's grammars are marked Unmodelled and skipped (counted in evidence).  Also decided on the generated schema family (MC_Config.MCFamily2/3: every root schema over 16 node shapes, candidate values derived per field kind by ConfigMachine!Gen*): TLC over all 256 (thorough: + 960 three-key) schemas, replay of every 7th (thorough: 2nd) schema's complete depth-1 graph and simulated behaviours on real objects, recorded traces on sampled schemas.",
+        note="Bounded instance MC_Config/SchemaA (scalars with bounds/transforms, typed list and dict, nested schemas with a validator, lists of schemas with and without defaults), candidate pools, depth 3 (quick) / 4 (thorough); object identity observed as the set of replaced paths; values outside the model's grammars are marked Unmodelled and skipped (counted in evidence).  Also decided on the generated schema family (MC_Config.MCFamily2/3: every root schema over 16 node shapes, candidate values derived per field kind by ConfigMachine!Gen*): TLC over all 256 (thorough: + 960 three-key) schemas, replay of every 7th (thorough: 2nd) schema's complete depth-1 graph and simulated behaviours on real objects, recorded traces on sampled schemas.  The generated family runs with every operation followed by a reset of each field (NextThenReset).",
         technique="TLA+ invariants/action properties on default marks; replay into code; TLC trace validation",
         design="5/C12",
     ),
@@ -103,7 +103,7 @@ CHECKS = {
         "length, otherwise verbatim) and every other leaf equals the unmasked rendering) for masks none/''/'*'/'XX' with and "
         "without virtual output over all reachable states; every Render transition is executed as to_tree(virtual, sensitive_mask) "
         "on a real Config and compared leaf by leaf.",
-        note="Bounded instance MC_Persist/SchemaP (scalars, bytes, digest, secrets with methods xor/aes/best, typed list/dict of bytes and secrets, nested schema, config type naming its own key file with a nested schema below it, list of schemas with secrets, virtual fields), fixed candidate values, depth 3/4; formats are a typed channel in the specification (the real encoders run in conformance); ciphertexts/digests abstracted by independent AES/XOR/hashlib implementations.",
+        note="Bounded instance MC_Persist/SchemaP (scalars, bytes, digest, secrets with methods xor/aes/best, typed list/dict of bytes and secrets, nested schema, config type naming its own key file with a nested schema below it, list of schemas with secrets, virtual fields), fixed candidate values, depth 3/4; formats are a typed channel in the specification (the real encoders run in conformance); ciphertexts/digests abstracted by independent AES/XOR/hashlib implementations.  Masks are rendered through to_tree, dumps() and save() in every format (the three routes must agree); a list of configurations marked sensitive.",
         technique="TLA+ invariant over to_tree with mask, stated per field independently of the rendering operator; replay into code",
         design="5/C10",
     ),
@@ -114,7 +114,7 @@ CHECKS = {
         "and 13 dict methods with arguments of every iterable kind to the depth bound; every transition is executed on a real "
         "ListProxy/DictProxy AND on a real plain list/dict, so the specification's model of the built-ins is itself checked.",
         note="Item/key/value fields and argument pools are fixed per instance (IntField(min=0) items, another typed list of the same "
-        "storage type, upper-casing string keys); structural equality of items; result type of proxy*n and slice reads left free.",
+        "storage type, upper-casing string keys); structural equality of items; result type of proxy*n and slice reads left free.  update(positional, **keywords) call form.",
         technique="TLA+ differential model (typed container vs built-in) + TLC invariants; transition replay on real proxies and real built-ins",
         design="5/C17",
     ),
@@ -125,7 +125,7 @@ CHECKS = {
         "malformed and truncated ciphertexts / 15 shapes of stored secrets; every transition is executed on real KeyFile and "
         "SecureField objects: AES values are decrypted by an independent implementation under every candidate key, their IV must "
         "be the output of exactly one os.urandom(16) draw, XOR bytes are compared with TLC's.",
-        note="AES arithmetic and hash functions are symbolic in TLA+ (injective terms with nonce IVs/salts); that the real bytes are standard AES-256-CBC/PKCS7 resp. hash(salt+plaintext) is decided by the abstraction function with independent implementations (pure-Python AES validated against FIPS-197 / SP 800-38A vectors; hashlib); freshness of IVs/salts is observed at os.urandom, not proved; XOR and PKCS7 padding validity are computed concretely in TLA+.",
+        note="AES arithmetic and hash functions are symbolic in TLA+ (injective terms with nonce IVs/salts); that the real bytes are standard AES-256-CBC/PKCS7 resp. hash(salt+plaintext) is decided by the abstraction function with independent implementations (pure-Python AES validated against FIPS-197 / SP 800-38A vectors; hashlib); freshness of IVs/salts is observed at os.urandom, not proved; XOR and PKCS7 padding validity are computed concretely in TLA+.  Later rounds added: two encryptions inside one key session (EncryptPair), key files swapped between sessions (onfile / Swap), a key ending in LF, stored values without a method carrying a genuine ciphertext of the field's own method, the number of random draws as part of the compared state.",
         technique="TLA+ symbolic cipher model (concrete XOR/padding) + TLC invariants; transition replay with independent AES as abstraction function",
         design="5/C08",
     ),
@@ -137,7 +137,7 @@ CHECKS = {
         "is executed on a real ChallengeField: the stored value is mapped to H(alg, salt, pt) by recomputing hashlib over the "
         "candidate secrets, the salt must be one fresh os.urandom(digest_size) draw, and str/repr/fields/documents are searched "
         "for the plaintext.",
-        note="AES arithmetic and hash functions are symbolic in TLA+ (injective terms with nonce IVs/salts); that the real bytes are standard AES-256-CBC/PKCS7 resp. hash(salt+plaintext) is decided by the abstraction function with independent implementations (pure-Python AES validated against FIPS-197 / SP 800-38A vectors; hashlib); freshness of IVs/salts is observed at os.urandom, not proved; XOR and PKCS7 padding validity are computed concretely in TLA+.",
+        note="AES arithmetic and hash functions are symbolic in TLA+ (injective terms with nonce IVs/salts); that the real bytes are standard AES-256-CBC/PKCS7 resp. hash(salt+plaintext) is decided by the abstraction function with independent implementations (pure-Python AES validated against FIPS-197 / SP 800-38A vectors; hashlib); freshness of IVs/salts is observed at os.urandom, not proved; XOR and PKCS7 padding validity are computed concretely in TLA+.  Challenge fields that declare a (possibly empty) text default (BuildDefault); the number of random draws is part of the compared state.",
         technique="TLA+ symbolic digest model + TLC invariants/action properties; transition replay with hashlib recomputation as abstraction function",
         design="5/C09",
     ),
@@ -193,7 +193,7 @@ CHECKS = {
         "the set of (configuration path, validator) invocations and the outcome of every load / validate / collecting validate.",
         note="Bounded instance and candidate pools; the specification models the order of validation (fields in declaration order, "
         "nested configurations completely, then schema validators; first failure ends the run) and that validating a list of "
-        "configurations does not descend into its items.",
+        "configurations does not descend into its items.  Also the generated schema family with every operation followed by validate() / validate(collect_errors=True) (NextThenValidate), required containers emptied in place, a flagged section holding a list of configurations, items inserted again after being invalidated (C11_ItemsInserted).",
         technique="TLA+ model of Schema._validate with an invocation log + TLC invariants; replay with logging validators; TLC trace validation",
         design="5/C11",
     ),
@@ -205,7 +205,7 @@ CHECKS = {
         "three process environments (valid / invalid / empty / unset per derived name) x histories of build, load, assign, reset; "
         "every transition is replayed on real schemas built top-down under the same os.environ.",
         note="Environment fixed within a behaviour; list/dict/challenge-default fields do not read variables in cincoconfig and are "
-        "outside the family.",
+        "outside the family.  A mixed-case named prefix; eligible schemas are assembled by dotted item assignment instead of attribute assignment.",
         technique="TLA+ machine over a schema family x environment profiles + TLC invariants/action properties; transition replay under real os.environ",
         design="5/C14",
     ),
